@@ -1,6 +1,7 @@
 package main
 
 import (
+	"go/token"
 	"fmt"
 	"strings"
 
@@ -23,6 +24,8 @@ func init() {
 				Old: "if !connCode.CanBeActivatedBy(req.ListenClientID) {\n\t\tif connCode.IsRevoked {", New: "if !connCode.CanBeActivatedBy(req.ListenClientID) && req.ListenClientID < 0 {\n\t\tif connCode.IsRevoked {"},
 			{Name: "claim-after-create", File: "internal/cloud/services/conncode/activation.go", Rule: "R-C06-1",
 				Old: "\tif !claimed {\n\t\treturn nil, coreerrors.New(coreerrors.CodeConflict, \"connection code has already been used\")\n\t}\n\n\t// 7.", New: "\tif !claimed && req.Code == \"\" {\n\t\treturn nil, coreerrors.New(coreerrors.CodeConflict, \"connection code has already been used\")\n\t}\n\n\t// 7."},
+			{Name: "creator-fails-after-store", File: "internal/cloud/services/port_mapping_service.go", Rule: "R-C06-2",
+				Old: "\t\t\ts.baseService.LogWarning(\"add mapping to listen client list\", err)\n", New: "\t\t\treturn nil, s.baseService.WrapError(err, \"add mapping to listen client list\")\n"},
 			{Name: "rollback-forgotten-on-update-failure", File: "internal/cloud/services/conncode/activation.go", Rule: "R-C06-2",
 				Old: "\tif err := s.connCodeRepo.Update(connCode); err != nil {\n\t\t// 回滚：删除已创建的映射（忽略删除错误，主流程已失败）\n\t\t_ = s.portMappingService.DeletePortMapping(createdMapping.ID)\n\t\ts.connCodeRepo.ReleaseClaim(req.Code)\n\t\treturn nil, coreerrors.Wrap(err, coreerrors.CodeStorageError, \"failed to update connection code\")",
 				New: "\tif err := s.connCodeRepo.Update(connCode); err != nil {\n\t\ts.connCodeRepo.ReleaseClaim(req.Code)\n\t\treturn nil, coreerrors.Wrap(err, coreerrors.CodeStorageError, \"failed to update connection code\")"},
@@ -229,6 +232,54 @@ func runC06(r *Report) {
 	keepClaim(act, "ActivateConnectionCode")
 	if rv := r.P.Fn(ccPkg, "Service.RevokeConnectionCode"); rv != nil {
 		keepClaim(rv, "RevokeConnectionCode")
+	}
+
+	// the creation primitive the activation relies on is all-or-nothing: once the record is stored,
+	// CreatePortMapping either succeeds or removes the record again (the activation rolls back only
+	// a mapping it received; a mapping stored by a create that then reports failure would stay active)
+	if cpm := r.need("R-C06-2", "internal/cloud/services", "portMappingService.CreatePortMapping"); cpm != nil {
+		stores := Calls(cpm, false, "PortMappingRepository.CreatePortMapping", "PortMappingRepo.CreatePortMapping", "CreatePortMapping")
+		var store ssa.CallInstruction
+		for _, c := range stores {
+			if c.Parent() == cpm {
+				store = c
+			}
+		}
+		if store == nil {
+			r.Fail("R-C06-2", cpm.Pos(), "the repository call that stores the mapping was not found", "CreatePortMapping", "creator-all-or-nothing")
+		} else {
+			var start *ssa.BasicBlock
+			for _, b := range cpm.Blocks {
+				if ErrOK(b, store) && (start == nil || b.Dominates(start)) {
+					start = b
+				}
+			}
+			bad := token.NoPos
+			if start == nil {
+				bad = CallPos(store)
+			} else {
+				hits := WalkFrom(start, nil, func(in ssa.Instruction) int {
+					if ci, ok := in.(ssa.CallInstruction); ok && CalleeOf(ci).Name == "DeletePortMapping" {
+						return Stop
+					}
+					if ret, ok := in.(*ssa.Return); ok {
+						if RetErrKind(ret) != "nil" {
+							return Hit
+						}
+						return Stop
+					}
+					return Cont
+				}, nil)
+				if len(hits) > 0 {
+					bad = hits[0].Pos()
+				}
+			}
+			pos := CallPos(store)
+			if bad != token.NoPos {
+				pos = bad
+			}
+			r.Ob("R-C06-2", pos, bad == token.NoPos, "CreatePortMapping never reports failure after the record was stored without deleting it (a failed activation must leave no mapping)", "CreatePortMapping", "creator-all-or-nothing")
+		}
 	}
 
 	// ---- R-C06-3 what the mapping binds -------------------------------------------------
